@@ -149,10 +149,11 @@ def handleCore (op : String) (args : List String) (impl : String) : Option Verdi
     let rdy := isReady cfg ready
     let S := startParams (keyOf sid (keyTab sid ready)) cfg ready
     let m := s!"{if rdy then 1 else 0}:{toks S}"
+    -- property on the implementation's answer: `SubsetSpec` (theorem startParams_spec)
     let ok := match impl.splitOn ":" with
       | [f, s] => match peers s with
-        | some S' => S'.all (fun p => decide (p ∈ holders) && decide (p ∈ ready)) && (f != "1" || S'.length == t + 1) &&
-                     S'.length ≤ t + 1
+        | some S' => (f == "0" || f == "1") &&
+                     decide (SubsetSpec (keyOf sid (keyTab sid ready)) holders t ready (f == "1") S')
         | none => false
       | _ => false
     return ⟨m, ok, s!"subset:ready={rdy}:n={sizeTag ready.length}"⟩
@@ -172,12 +173,13 @@ def handleCore (op : String) (args : List String) (impl : String) : Option Verdi
       | some (n, S) => (s!"n={n};start={toks S};run={toks S};init={inits}", "announced")
       | none => (s!"n={arrs.length};start=none;run=none;init={inits}", "never-ready")
     -- property on the implementation's output: whatever subset was announced / started satisfies the C07 clause
-    let ok := match field impl "start", field impl "run" with
-      | some st, some rn =>
-        rn == st && match (if st = "none" then some none else (peers st).map some) with
-          | some out => !wf || decide (AnnouncedOk cfg arrivals out)
+    -- (the subset must be justified by the ready messages consumed BEFORE the announcement: n of the implementation)
+    let ok := match field impl "start", field impl "run", (field impl "n").bind String.toNat? with
+      | some st, some rn, some n =>
+        rn == st && n ≤ arrs.length && match (if st = "none" then some none else (peers st).map some) with
+          | some out => !wf || decide (AnnouncedOk cfg (readiesOf (arrs.take n)) arrivals out)
           | none => false
-      | _, _ => false
+      | _, _, _ => false
     return ⟨m, ok, s!"initiate:{tag}:wf={wf}:excl={!excluded.isEmpty}:ticks={ticks}:arr={sizeTag arrs.length}"⟩
   | "retry2", [self, t, sid, ps, first, claimant, evs] => some <| Id.run do
     let some self := peerOf self | return bad
@@ -201,30 +203,66 @@ def handleCore (op : String) (args : List String) (impl : String) : Option Verdi
       if elected = self then
         -- coordinates the second attempt: ready messages are collected, fail messages are read by a watcher that knows
         -- no coordinator and are all ignored
-        let readies := evs.filterMap fun e => match e with | .inr p => some p | _ => none
+        let cos : List (CoEv String) := evs.filterMap fun e => match e with
+          | .inr p => some (CoEv.ready p) | .inl (.fail f) => some (CoEv.fail f) | _ => none
+        let readies := readiesCo cos
         let cfg : ICfg String := ⟨self, ps, t, ex⟩
         let wf := decide (self ∈ ps) && decide (self ∉ ex)
-        let (m, tag) := match initiate key cfg readies with
-          | some (_, S) => (s!"mode=c;sel={sel};r=-;start={toks S};run=c:{toks S};res=ok", "announced")
-          | none => (s!"mode=c;sel={sel};r=-;start=none;run=-;res=ok", "never-ready")
-        let ok := match field impl "start", field impl "res" with
-          | some st, some res =>
-            res == "ok" && match (if st = "none" then some none else (peers st).map some) with
-              | some out => !wf || decide (AnnouncedOk cfg readies out)
+        let (ann, _) := runCoord key cfg none cos       -- the retry-phase watcher knows no coordinator
+        let (m, tag) := match ann with
+          | some (n, S) => (s!"mode=c;sel={sel};r=-;n={n};start={toks S};run=c:{toks S};res=ok", "announced")
+          | none => (s!"mode=c;sel={sel};r=-;n={readies.length};start=none;run=-;res=ok", "never-ready")
+        let ok := match field impl "start", field impl "run", field impl "res", (field impl "n").bind String.toNat? with
+          | some st, some rn, some res, some n =>
+            res == "ok" && n ≤ readies.length && (if st = "none" then rn == "-" else rn == "c:" ++ st) &&
+            match (if st = "none" then some none else (peers st).map some) with
+              | some out => !wf || decide (AnnouncedOk cfg (readies.take n) readies out)
               | none => false
-          | _, _ => false
+          | _, _, _, _ => false
         return ⟨m, ok, s!"retry2:{if first.startsWith "silent" then "silent" else "failed-run"}:coordinates:{tag}:wf={wf}:fails={fails}"⟩
       else
         let tr := evs.filterMap fun e => match e with | .inl e => some e | _ => none
         let st := runWait2 (some elected) none tr
-        let m := s!"mode=w;sel={sel};r={toks st.readies};start=none;run={joinOr (st.runs.map fun n => "w:p" ++ toString n) "/"};res={showRes st.res}"
+        let m := s!"mode=w;sel={sel};r={toks st.readies};n=0;start=none;run={joinOr (st.runs.map fun n => "w:p" ++ toString n) "/"};res={showRes st.res}"
         let ok := match field impl "r", field impl "run", (field impl "res").bind parseRes with
           | some r, some rn, some res =>
             match peers r, (items rn "/").mapM (fun x => if x.startsWith "w:p" then (x.drop 3).toString.toNat? else none) with
-            | some rs, some runs => decide (ObeysOnly elected tr rs runs res)
+            -- (retry_follower_obeys_only: obeys only the elected coordinator AND no fail message aborts the attempt)
+            | some rs, some runs => decide (ObeysOnly elected tr rs runs res) && res != .fail
             | _, _ => false
           | _, _, _ => false
         return ⟨m, ok, s!"retry2:follows:res={showRes st.res}:ran={!st.runs.isEmpty}:fails={fails}"⟩
+  | "coord1", [_kind, self, t, sid, holders, evs] => some <| Id.run do
+    let some self := peerOf self | return bad
+    let some t := t.toNat? | return bad
+    let some sid := fromHex sid | return bad
+    let some holders := peers holders | return bad
+    let some cos := (items evs ";").mapM (fun e => match e.toList with
+      | 'r' :: r => (peerOf (String.ofList r)).map CoEv.ready
+      | 'f' :: r => (peerOf (String.ofList r)).map CoEv.fail
+      | _ => none) | return bad
+    let key := keyOf sid (keyTab sid (self :: holders))
+    if staticCoordinator key holders != some self then return ⟨"notcoord", impl == "notcoord", "coord1:notcoord"⟩
+    let cfg : ICfg String := ⟨self, holders, t, []⟩
+    -- first attempt: Execute hands the elected coordinator — this relayer — to the fail watcher
+    let (ann, aborted) := runCoord key cfg (some self) cos
+    let readies := readiesCo cos
+    let nAll := (cos.takeWhile fun e => e != CoEv.fail self).filter (fun e => match e with | .ready _ => true | _ => false) |>.length
+    let res := if aborted then "fail" else "ok"
+    let m := match ann with
+      | some (n, S) => s!"n={n};start={toks S};run={toks S};res={res}"
+      | none => s!"n={nAll};start=none;run=-;res={res}"
+    -- property: the announcement is justified by the consumed ready messages; the attempt is aborted only by a fail message
+    -- authenticated as coming from the coordinator itself (coordinator_ignores_forged_fails)
+    let ok := match field impl "start", field impl "run", field impl "res", (field impl "n").bind String.toNat? with
+      | some st, some rn, some ires, some n =>
+        (if st = "none" then rn == "-" else rn == st) && n ≤ readies.length &&
+        (ires == "ok" || (ires == "fail" && cos.contains (CoEv.fail self))) &&
+        match (if st = "none" then some none else (peers st).map some) with
+          | some out => (ires == "fail" && st == "none") || decide (AnnouncedOk cfg (readies.take n) readies out)
+          | none => false
+      | _, _, _, _ => false
+    return ⟨m, ok, s!"coord1:announced={ann.isSome}:aborted={aborted}:fails={cos.any fun e => match e with | .fail _ => true | _ => false}"⟩
   | "wait", [self, sid, ps, evs] => some <| Id.run do
     let some self := peerOf self | return bad
     let some sid := fromHex sid | return bad
